@@ -1000,6 +1000,11 @@ fn main() {
     }
 
     // (ordered by circuit size, so that a wall-budget cut removes the heaviest tail only)
+    // (thorough: the sweep leaves 450 s of the budget to the groups after it)
+    if tier.is_thorough() {
+        let share = (cx.remaining_s() - 450.0).max(60.0);
+        cx.next_group_share(share);
+    }
     cx.run_cases("faults", &fcases, |(c, idxs)| {
         let mut out = CaseOut::batch();
         vgad::explore_faults(c, kof(c).unwrap(), idxs, if c.cv == Cv::Jub { &faults_native } else { &faults_foreign }, &mut out);
@@ -1010,6 +1015,9 @@ fn main() {
     // panics on most propagated faults, so the gates themselves are probed here)
     let tfaults: Vec<_> = all_faults.iter().filter(|(n, _)| if tier.is_thorough() { ["+1", "zero", "neg", "random"].contains(n) } else { ["+1", "zero"].contains(n) }).cloned().collect();
     let free: Mutex<BTreeSet<String>> = Mutex::new(BTreeSet::new());
+    if tier.is_thorough() {
+        cx.next_group_share(150.0);
+    }
     cx.run_cases("table-faults", &tcases, |(c, idxs)| {
         let mut out = CaseOut::batch();
         explore_table_faults(c, kof(c).unwrap(), idxs, &tfaults, &mut out, &free);
@@ -1041,6 +1049,9 @@ fn main() {
         for (ci, chunk) in pairs.chunks(16).enumerate() {
             pcases.push((format!("{key}#{ci}"), (c.clone(), chunk.to_vec())));
         }
+    }
+    if tier.is_thorough() {
+        cx.next_group_share(100.0);
     }
     cx.run_cases("pairs", &pcases, |(c, pairs)| {
         let mut out = CaseOut::batch();
